@@ -610,6 +610,71 @@ def mk_request(rng, valid=True):
     return req.encode(), {"key": key, "protos": protos, "path": path, "defect": defect}
 
 
+def mk_exotic_request(rng):
+    """requests outside the well-formed class: compared exactly with the scanner model (and run
+    under ASan): duplicates, folded lines, bare LF, empty values, NUL bytes, over-long lines and
+    requests, Hixie key1/key2 leftovers, no empty line, early close"""
+    key = base64.b64encode(rnd_bytes(rng, 16)).decode()
+    hdrs = ["Host: example.org", "Origin: http://o", "Sec-WebSocket-Key: " + key, "Sec-WebSocket-Version: 13",
+            "Sec-WebSocket-Protocol: " + rng.choice(["binary", "base64", "binary, base64", "x"])]
+    first = ["GET /p HTTP/1.1"]
+    eol = "\r\n"
+    tail = "\r\n"
+    closed = False
+    k = rng.choice(["dup", "fold", "lf", "lfempty", "nul", "longline", "longreq", "longreq-keylate", "hixie", "hixie-short",
+                    "noblank", "closed", "twoget", "shortget", "space", "version", "lfempty-last", "mixed"])
+    if k == "dup":
+        hdrs.insert(rng.randrange(len(hdrs) + 1), rng.choice(["Sec-WebSocket-Key: AAAAAAAAAAAAAAAAAAAAAA==", "Sec-WebSocket-Protocol: base64",
+                                                               "Host: other", "Sec-WebSocket-Version: 0", "sec-websocket-origin: q"]))
+    elif k == "fold":
+        i = rng.randrange(len(hdrs)); hdrs[i] = hdrs[i] + "\r\n" + rng.choice([" ", "\t"]) + "folded, base64"
+    elif k == "lf":
+        eol = "\n"; tail = rng.choice(["\n", "\r\n"])
+    elif k in ("lfempty", "lfempty-last"):
+        name = rng.choice(["Sec-WebSocket-Key: ", "Sec-WebSocket-Protocol: ", "Host: ", "Origin: ", "Sec-WebSocket-Version: "])
+        hdrs = [h for h in hdrs if not h.startswith(name.strip())]
+        if k == "lfempty":
+            hdrs.insert(rng.randrange(len(hdrs) + 1), name + "\n" + rng.choice(["X: y", "Sec-WebSocket-Key: " + key, "base64"]))
+        else:
+            hdrs.append(name[:-1] + " \n"[0:0] + "")
+            hdrs[-1] = name
+            tail = rng.choice(["", "\r\n"]); eol = "\r\n"
+            return ("\r\n".join(first + hdrs[:-1]) + "\r\n" + name + "\n" + tail).encode("latin-1"), False
+    elif k == "nul":
+        i = rng.randrange(len(hdrs)); pos = rng.randrange(len(hdrs[i]) + 1); hdrs[i] = hdrs[i][:pos] + "\0" + hdrs[i][pos:]
+    elif k == "longline":
+        hdrs.insert(rng.randrange(len(hdrs) + 1), "X-Long: " + "a" * rng.choice([3000, 4070, 4090, 4100, 5000]))
+    elif k == "longreq":
+        for j in range(rng.choice([30, 40, 60])):
+            hdrs.insert(rng.randrange(len(hdrs) + 1), "X-%d: %s" % (j, "b" * rng.randrange(60, 130)))
+    elif k == "longreq-keylate":
+        keyh = [h for h in hdrs if h.startswith("Sec-WebSocket-Key")]
+        hdrs = [h for h in hdrs if not h.startswith("Sec-WebSocket-Key")]
+        pad = rng.choice([3950, 3990, 4000, 4010, 4020, 4030, 4060])
+        hdrs = hdrs + ["X-Pad: " + "c" * max(0, pad - sum(len(h) + 2 for h in hdrs) - 30)] + keyh
+    elif k in ("hixie", "hixie-short"):
+        hdrs += ["Sec-WebSocket-Key1: 1 2", "Sec-WebSocket-Key2: 3 4"]
+        tail = "\r\n" + ("12345678rest" if k == "hixie" else "123")
+    elif k == "noblank":
+        tail = ""
+    elif k == "closed":
+        closed = True; tail = rng.choice(["", "\r\n"])
+    elif k == "twoget":
+        hdrs.insert(rng.randrange(len(hdrs) + 1), "GET /second/path?x=1 HTTP/1.1")
+    elif k == "shortget":
+        first = [rng.choice(["GET / HTTP/1.", "GET /", "GET  HTTP/1.1", "GET /abcdefghijk"])]
+    elif k == "space":
+        hdrs = [h.replace(": ", rng.choice([":", ":  ", " : "]), 1) if rng.random() < 0.5 else h for h in hdrs]
+    elif k == "version":
+        hdrs = [h if not h.startswith("Sec-WebSocket-Version") else "Sec-WebSocket-Version: " +
+                rng.choice(["0", "256", "-256", "+13", " 13", "13abc", "abc", "", "99999999999999999999", "-99999999999999999999", "512", "257"]) for h in hdrs]
+    else:
+        rng.shuffle(hdrs); hdrs = [h.upper() if rng.random() < 0.3 else h for h in hdrs]
+        eol = rng.choice(["\r\n", "\n"])
+    rng.shuffle(hdrs) if k in ("dup", "nul", "version") else None
+    return (eol.join(first + hdrs) + eol + tail).encode("latin-1"), closed
+
+
 def oracle_hs(req, ob):
     """RFC 6455 4.2.2 on a request the generator made: 101 + correct accept + sub-protocol choice"""
     text = req.decode("latin-1")
@@ -953,10 +1018,15 @@ def run(ctx):
 
     # ---- function-level ops (encoder, chunked write, base64, sha1) and handshakes
     flines = func_lines(rng, ctx.tier)
+    exotic = set()      # handshake requests outside the oracle's well-formed class: exact comparison only
     hs_meta = []
     for i in range(60 if quick else 400):
         req, m = mk_request(rng, valid=(i % 4 != 3))
         flines.append("hs " + req.hex())
+    for i in range(120 if quick else 1500):
+        req, closed = mk_exotic_request(rng)
+        flines.append("hs " + req.hex() + (" closed" if closed else ""))
+        exotic.add(flines[-1])
     fgroups = batch(flines, 40)
 
     def run_f(g):
@@ -972,7 +1042,7 @@ def run(ctx):
             k = op.split()[0]
             dist["func_ops"][k] = dist["func_ops"].get(k, 0) + 1
             ob = impl[i] if i < len(impl) else ""
-            o = oracle_func(op, ob)
+            o = oracle_func(op, ob) if op not in exotic else None
             if o:
                 fails.append({"kind": "oracle", "what": "C09 %s oracle" % k, "detail": o, "script": [op[:4000]], "impl": [ob[:4000]]})
             elif model and i < len(model) and model[i] != ob:
